@@ -2,6 +2,7 @@
    generated definitions (coq/gen/Cxx/GenK_*.v) are written with.  Definitions only; lemmas in KBaseProofs.v. *)
 From Coq Require Import Reals List ZArith Bool.
 From Lerax Require Export CCBase Common.
+From Lerax Require Import Env.
 Import ListNotations.
 
 Definition b2Z (b : bool) : Z := if b then 1%Z else 0%Z.
@@ -48,3 +49,8 @@ Definition kargmax (l : list R) : Z := match l with [] => 0%Z | x :: tl => kargm
 
 Definition ksum (l : list R) : R := fold_right Rplus 0%R l.
 Definition kmean (l : list R) : R := (ksum l / INR (length l))%R.
+
+(* projections of a space descriptor, for generated code that tests `isinstance(env.action_space, Box)` and reads .low / .high *)
+Definition sp_is_box (s : sp) : bool := match s with SpBox _ _ _ => true | SpDisc _ => false end.
+Definition sp_lo (s : sp) : xb := match s with SpBox _ lo _ => lo | SpDisc _ => NInf end.
+Definition sp_hi (s : sp) : xb := match s with SpBox _ _ hi => hi | SpDisc _ => PInf end.
